@@ -549,7 +549,19 @@ pub fn shard(class: Class, seed: u64, tier: &str, scale: f64, from: u64, to: u64
             }
         };
         if r.rejected {
+            // every zone generated or loaded here is well-formed, so a rejection means Local cannot
+            // follow the zone data at all (it would silently fall back to another zone)
             sh.zones_rejected_by_reader += 1;
+            sh.n_mismatches += 1;
+            let why = match crate::worker::guarded(|| parse_case(&case)) {
+                Ok(Err(e)) => e,
+                Ok(Ok(_)) => "accepted on a second attempt".to_string(),
+                Err(p) => format!("reader panicked: {}", p),
+            };
+            *sh.by_class.entry("zone-rejected".into()).or_insert(0) += 1;
+            if sh.mismatches.iter().filter(|x| x.1 == "zone-rejected").count() < 4 {
+                sh.mismatches.push((i, "zone-rejected".into(), format!("the reader rejects this well-formed zone ({}): Local falls back to another zone instead of following the zone data", why), 0, false));
+            }
             continue;
         }
         sh.zones += 1;
@@ -747,7 +759,7 @@ pub fn run(opts: &Opts, only: Option<Class>) -> i32 {
         "table_transitions_in_zones": trans,
         "checks": tally,
         "zones_skipped_leap_seconds_or_unreadable_by_reference_reader": skipped,
-        "zones_rejected_by_chrono_reader_not_judged_here": rejected,
+        "well_formed_zones_rejected_by_the_reader": rejected,
         "mismatches_by_class": by_class,
         "zones_per_hour": (zones as f64 / wall * 3600.0) as u64,
         "real_components": ["tz_info reader and both lookups (accessor route)", "Local, TimeZone trait glue, unix.rs cache and zone selection, std read_to_end (public route)", "OS thread per zone history"],
@@ -793,7 +805,12 @@ pub fn replay(v: &Value) -> i32 {
     let z = match crate::worker::guarded(|| parse_case(&case)) {
         Ok(Ok(z)) => z,
         Ok(Err(e)) => {
-            println!("zone no longer parses: {}", e);
+            println!("zone {}: the reader rejects it: {}", case.label, e);
+            if class == "zone-rejected" {
+                println!("zone-rejected :: a well-formed zone is rejected, Local cannot follow it");
+                println!("VIOLATION property=C05 replay=<this file>");
+                return 1;
+            }
             return 0;
         }
         Err(p) => {
